@@ -18,11 +18,104 @@ REQUIRED_FEATURES = ['unaligned-op', 'self-flip-jumpword', 'self-flip-flipword',
 
 def plan(tier: str, seed: int) -> List[Dict[str, Any]]:
     shards, per = (16, 260) if tier == 'quick' else (64, 2500)
-    return [{'seed': seed, 'shard': i, 'cases': per, 'tier': tier, 'timeout_s': 900 if tier == 'quick' else 7200}
-            for i in range(shards)]
+    out = [{'kind': 'generated', 'seed': seed, 'shard': i, 'cases': per, 'tier': tier, 'timeout_s': 900 if tier == 'quick' else 7200}
+           for i in range(shards)]
+    n_corpus = 2 if tier == 'quick' else 16
+    for i in range(n_corpus):
+        out.append({'kind': 'corpus', 'seed': seed, 'shard': i, 'shards': n_corpus, 'tier': tier,
+                    'programs': 3 if tier == 'quick' else 40, 'timeout_s': 1500 if tier == 'quick' else 7200})
+    return out
+
+
+def corpus_rows() -> List[Dict[str, Any]]:
+    import csv
+
+    from fjverif.common import REPO_ROOT
+
+    tables = REPO_ROOT / 'tests' / 'tests_tables'
+    compiled: Dict[str, List[str]] = {}
+    rows: List[Dict[str, Any]] = []
+    for name in ('test_compile_fast.csv', 'test_compile_medium.csv', 'test_compile_hexlib.csv'):
+        if (tables / name).exists():
+            for r in csv.reader(open(tables / name)):
+                if r:
+                    r = [x.strip() for x in r]
+                    compiled[r[0]] = r
+    for name in ('test_run_fast.csv', 'test_run_medium.csv', 'test_run_hexlib.csv'):
+        if (tables / name).exists():
+            for r in csv.reader(open(tables / name)):
+                if r:
+                    r = [x.strip() for x in r]
+                    if r[0] in compiled:
+                        c = compiled[r[0]]
+                        rows.append({'name': r[0], 'files': [str(REPO_ROOT / p.strip()) for p in c[1].split('|')], 'w': int(c[3]),
+                                     'stl': c[6] == 'True', 'input': str(REPO_ROOT / r[2]) if r[2] else None})
+    return rows
+
+
+def shard_corpus(spec: Dict[str, Any], journal: Any) -> Dict[str, Any]:
+    """real programs (assembled by the tree under test, real stl tables and pointer code) on the three engines, judged by
+    the reference machine run on the image the reader loads."""
+    import contextlib
+    import io
+    from pathlib import Path
+
+    import flipjump
+    from flipjump.fjm.fjm_consts import FJMVersion
+    from flipjump.fjm.fjm_reader import Reader
+
+    from fjverif.refmachine import RefMachine
+
+    rng = rng_for(spec['seed'], PROPERTY, 'corpus', spec['shard'])
+    counters: Dict[str, Any] = {}
+    violations: List[Dict[str, Any]] = []
+    hashes: List[str] = []
+    rows = corpus_rows()[spec['shard']::spec['shards']]
+    rng.shuffle(rows)
+    Device = engines.make_recording_device()
+    for row in rows[:spec['programs']]:
+        out = engines.tmpdir() / 'corpus.fjm'
+        try:
+            with contextlib.redirect_stdout(io.StringIO()):
+                flipjump.assemble([Path(f) for f in row['files']], out, memory_width=row['w'], use_stl=row['stl'],
+                                  fjm_version=FJMVersion(rng.randrange(4)), print_time=False, warning_as_errors=False)
+        except flipjump.FlipJumpException:
+            counters['corpus_not_assembled'] = counters.get('corpus_not_assembled', 0) + 1
+            continue
+        reader = Reader(out)
+        stdin = Path(row['input']).read_bytes() if row['input'] else b''
+        ref = RefMachine(row['w'], [(sg.segment_start, sg.segment_length) for sg in reader.memory_segments],
+                         {k: v for k, v in reader.memory.items() if v}, stdin, track=False)
+        ref.run(2_500_000)
+        if ref.cause == 'cut':
+            counters['corpus_too_long_for_reference'] = counters.get('corpus_too_long_for_reference', 0) + 1
+            continue
+        counters['corpus_programs'] = counters.get('corpus_programs', 0) + 1
+        counters['corpus_reference_ops'] = counters.get('corpus_reference_ops', 0) + ref.ops
+        for engine in ('native', 'fast', 'featured'):
+            if engine == 'featured' and ref.ops > 400_000:
+                continue
+            journal.note({'corpus': row['name'], 'engine': engine})
+            device = Device(stdin)
+            obs = engines.run_engine(out, {'engine': engine}, device, watchdog_s=300)
+            counters['monitor_evaluations'] = counters.get('monitor_evaluations', 0) + 1
+            got = (obs['cause'], obs['ops'], obs['fault'], [tuple(e) for e in device.log])
+            want = (ref.cause, ref.ops, ref.fault_address, ref.io_log)
+            if got != want:
+                field = next(n for n, a, b in zip(('cause', 'ops', 'fault-address', 'io-log'), got, want) if a != b)
+                violations.append({'key': f'corpus/{engine}/{field}',
+                                   'what': f'{row["name"]} on {engine}: {field} differs from the reference '
+                                           f'({got[0]}/{got[1]} vs {want[0]}/{want[1]})',
+                                   'replay': {'kind': 'corpus', 'program': row['name'], 'files': row['files'], 'engine': engine}})
+        hashes.append('corpus:' + row['name'])
+    engines.cleanup_tmpdir()
+    return {'counters': counters, 'violations': violations, 'hashes': hashes, 'samples': [],
+            'evaluations': counters.get('monitor_evaluations', 0)}
 
 
 def run_shard(spec: Dict[str, Any], journal: Any) -> Dict[str, Any]:
+    if spec.get('kind') == 'corpus':
+        return shard_corpus(spec, journal)
     rng = rng_for(spec['seed'], PROPERTY, spec['shard'])
     counters: Dict[str, Any] = {}
     violations: List[Dict[str, Any]] = []
@@ -32,7 +125,11 @@ def run_shard(spec: Dict[str, Any], journal: Any) -> Dict[str, Any]:
         geom = GEOMS[index % len(GEOMS)]
         width = (8, 16, 32, 64)[(index // len(GEOMS)) % 4]
         max_ops = 200000 if index % 97 == 96 else 3000
-        case = imagegen.generate_case(rng, geom, width, max_ops=max_ops)
+        if index == 5 and spec['shard'] % 4 == 0:
+            # one long straight-line program per few shards: crosses the native engine's signal-poll cadence (2^18 ops)
+            case = imagegen.long_chain_case(rng, (16, 32, 64)[spec['shard'] // 4 % 3] if spec['shard'] // 4 % 3 else 32, 270000)
+        else:
+            case = imagegen.generate_case(rng, geom, width, max_ops=max_ops)
         configs = enginecmp.c01_configs(rng, case)
         found, ref = enginecmp.compare_case(case, configs, rng, check_memory=False, check_ring=False,
                                             counters=counters, journal=journal)
@@ -59,6 +156,8 @@ def finalize(tier: str, seed: int, counters: Dict[str, Any], evaluations: int, d
             inconclusive.append(f'engine {engine} was never run')
     if distinct < 200:
         inconclusive.append(f'only {distinct} non-trivial programs generated')
+    if not counters.get('corpus_programs'):
+        inconclusive.append('no corpus program was run against the reference machine')
     return {
         'coverage': {
             'rule': 'programs grown along their own execution on the reference machine (imagegen), each run on '
